@@ -456,9 +456,10 @@ pub fn run(ctx: &mut Ctx) {
     if !ctx.violations.is_empty() {
         return;
     }
-    if !ctx.quick() {
-        crate::fuzzrun::campaign(ctx, "c15_no_panic", fuzz_case, 500_000);
+    if !ctx.quick() && !crate::fuzzrun::campaign(ctx, "c15_no_panic", fuzz_case, 500_000) {
+        return;
     }
+    e2_leg(ctx);
 }
 
 pub fn replay(ctx: &mut Ctx, v: &Value) {
@@ -470,4 +471,56 @@ pub fn replay(ctx: &mut Ctx, v: &Value) {
         Err(e) if e.starts_with("HARNESS") => crate::ev::inconclusive(&e),
         Err(e) => ctx.violation(&e, v),
     }
+}
+
+// ---------- E2 leg: rustc reports the documented misuses as ordinary diagnostics in the offending file ----------
+
+pub fn e2_leg(ctx: &mut Ctx) -> bool {
+    use crate::e2::{Batch, Opts};
+    let n = ctx.n(120, 1200) as usize;
+    let tapes = crate::drive::gen_tapes(ctx.seed, 1500, n, 64);
+    let cases: Vec<Case> = tapes.iter().map(|tp| gen_misuse(&mut Tape::new(tp))).collect();
+    let mut batch = Batch::new("c15-e2", Opts { feature_unimock: false, members: 16, check_only: true, ..Default::default() });
+    for (i, c) in cases.iter().enumerate() {
+        let mac = match c.macro_name.as_str() {
+            "entrait_export" | "entrait_export_unimock" => "::entrait::entrait_export",
+            _ => "::entrait::entrait",
+        };
+        // supporting items so that the misuse is the only thing wrong with the program
+        let src = format!(
+            "#![allow(warnings)]\npub struct Conf;\npub struct MyType;\npub mod a {{ pub struct Conf; }}\npub struct G<T>(T);\npub trait A {{}}\npub trait B {{}}\npub trait C {{}}\n#[{mac}({})]\n{}\npub fn run() -> Vec<String> {{ vec![] }}\n",
+            c.attr, c.item
+        );
+        batch.add(&format!("c{i:05}"), src);
+    }
+    let out = batch.build_and_run();
+    batch.cleanup();
+    for (i, c) in cases.iter().enumerate() {
+        let id = format!("c{i:05}");
+        ctx.count_eval();
+        let cat = c.misuse.unwrap_or("");
+        let Some(diags) = out.compile_failed.get(&id) else {
+            ctx.violation(
+                &format!("documented misuse `{cat}` compiled without any diagnostic under rustc: #[{}({})] {}", c.macro_name, c.attr, c.item),
+                &c.json(),
+            );
+            return false;
+        };
+        if let Some(p) = diags.iter().find(|d| d.message.contains("panicked") || d.rendered.contains("panicked")) {
+            ctx.violation(&format!("rustc reports a proc-macro panic for misuse `{cat}`: {}", p.message), &c.json());
+            return false;
+        }
+        if !diags.iter().any(|d| category_matches(cat, &d.message, &c.detail)) {
+            ctx.violation(
+                &format!(
+                    "rustc does not show the specific diagnostic for misuse `{cat}`; it reports: {}",
+                    diags.iter().map(|d| d.message.clone()).collect::<Vec<_>>().join(" | ")
+                ),
+                &c.json(),
+            );
+            return false;
+        }
+        ctx.class(&format!("e2:misuse:{cat}"));
+    }
+    true
 }
